@@ -318,6 +318,15 @@ async fn run_venue(a: &Args, m: &mut mon::Mon) {
                         let amt = storm::amount_near(&mut r, base).min(t_before);
                         let i = w.ix_venue_deposit(acct, b, auth.pubkey(), ta, amt);
                         if amt > 0 && w.exec(m, &[i], &[&auth]).await.ok() {
+                            // drip: a few withdrawals of the smallest amounts first (the place where
+                            // a conversion that rounds a tiny amount to "nothing burnt" would pay out)
+                            for _ in 0..r.gen_range(0..4) {
+                                let tiny = storm::pick(&mut r, &[1u64, 1, 2, 3]);
+                                let i = w.ix_venue_withdraw(acct, b, auth.pubkey(), ta, tiny, None);
+                                if w.exec(m, &[i], &[&auth]).await.ok() {
+                                    m.r.count("C20.chain_round_trip_drip_withdrawals_accepted");
+                                }
+                            }
                             let i = w.ix_venue_withdraw(acct, b, auth.pubkey(), ta, 0, Some(true));
                             if w.exec(m, &[i], &[&auth]).await.ok() {
                                 let t_after = w.token(&ta);
@@ -356,6 +365,7 @@ async fn run_venue(a: &Args, m: &mut mon::Mon) {
                         // the reserve goes stale: anything that needs its price must now fail
                         let slot = w.chain.clock.slot + 1;
                         w.chain.set_clock_slot(slot);
+                        w.chain.advance(1); // Drift markets go stale by the second, reserves by the slot
                         w.venue_autorefresh = false;
                         w.refresh_oracles();
                         let tb = w.ta_of(acct, db);
@@ -379,6 +389,7 @@ async fn run_venue(a: &Args, m: &mut mon::Mon) {
         m.r.add("storm.worlds", 1);
         m.r.add("venue.kamino_standin_calls", venue::KAMINO_CALLS.swap(0, std::sync::atomic::Ordering::Relaxed));
         m.r.add("venue.solend_standin_calls", venue::SOLEND_CALLS.swap(0, std::sync::atomic::Ordering::Relaxed));
+        m.r.add("venue.drift_standin_calls", venue::DRIFT_CALLS.swap(0, std::sync::atomic::Ordering::Relaxed));
         world_no += 1;
     }
 }
